@@ -79,29 +79,39 @@ theorem Ext.liftS {α} (r : Except SErr α) : Ext (liftS r) := by
   | error e => cases e <;> exact Ext.throw _
 
 theorem Ext.lineInfo (pos : Nat) : Ext (lineInfo pos) := Ext.bind Ext.get (fun _ => Ext.liftS _)
-theorem Ext.lineOf (pos : Nat) : Ext (lineOf pos) := Ext.bind (Ext.lineInfo pos) (fun _ => Ext.pure _)
+theorem Ext.trueLine (pos : Nat) : Ext (trueLine pos) := Ext.bind Ext.get (fun _ => Ext.pure _)
 theorem Ext.scanPosition : Ext scanPosition := Ext.bind Ext.get (fun _ => Ext.pure _)
 
 /-- **the comment loop of `next` never removes or reorders a listed comment** -/
-theorem commentLoop_appends (fuel line : Nat) (pt : Option (Nat × Token)) : Ext (commentLoop fuel line pt) := by
-  induction fuel generalizing line pt with
+theorem commentLoop_appends (fuel line : Nat) (trailing : Option Nat) (pt : Option (Nat × Token)) :
+    Ext (commentLoop fuel line trailing pt) := by
+  induction fuel generalizing line trailing pt with
   | zero => exact Ext.throw _
   | succ fuel ih =>
     unfold commentLoop
     split
     · rename_i pos text
-      refine Ext.bind (Ext.lineOf pos) (fun x => ?_)
+      refine Ext.bind (Ext.trueLine pos) (fun startLine => ?_)
       dsimp only
       have tail : Ext (do
           let ended ← scanPosition
-          let line ← lineOf ended
+          let line ← Gosyn.Model.trueLine ended
           have comment : Comment := { pos := pos, text := String.ofList text }
-          P.modify fun s => { s with comments := s.comments.push comment, leadComments := s.leadComments.push comment }
+          P.modify fun s => { s with comments := s.comments.push comment }
+          let trailing' ← if trailing = some startLine then Pure.pure (some line)
+            else do
+              P.modify fun s => { s with leadComments := s.leadComments.push comment }
+              Pure.pure none
           let posTok ← Gosyn.Model.scanNext
-          commentLoop fuel line posTok) := by
-        refine Ext.bind Ext.scanPosition (fun ended => Ext.bind (Ext.lineOf ended) (fun line' => ?_))
+          commentLoop fuel line trailing' posTok) := by
+        refine Ext.bind Ext.scanPosition (fun ended => Ext.bind (Ext.trueLine ended) (fun line' => ?_))
         refine Ext.bind (Ext.modify _ (fun s => ⟨#[_], Array.push_eq_append⟩)) (fun _ => ?_)
-        exact Ext.bind Ext.scanNext (fun pt' => ih line' pt')
+        dsimp only
+        have jp : ∀ tr, Ext (do let posTok ← Gosyn.Model.scanNext; commentLoop fuel line' tr posTok) :=
+          fun tr => Ext.bind Ext.scanNext (fun pt' => ih line' tr pt')
+        split
+        · exact Ext.bind (Ext.pure _) (fun tr => jp tr)
+        · exact Ext.bind (Ext.modify _ (fun s => ⟨#[], by simp⟩)) (fun _ => Ext.bind (Ext.pure _) (fun tr => jp tr))
       split
       · exact Ext.bind (Ext.modify _ (fun s => ⟨#[], by simp⟩)) (fun _ => tail)
       · exact tail
